@@ -2883,6 +2883,15 @@ fn fingerprint(router: &Router) -> u64 {
 /// Quiescence: every client acknowledges and drains everything, links send
 /// what they owe, the router runs until it blocks; repeated to a fixpoint.
 /// No new stimulus (publish, subscribe, ping) is injected.
+/// The `custom_segment` override of a run, if any: (key, segment count).
+fn custom_segment_of(cfg: &RunCfg) -> Option<(&'static str, usize)> {
+    if cfg.seg_size == 1024 && cfg.topics.len() % 2 == 0 {
+        Some(("a/#", cfg.seg_count + 2))
+    } else {
+        None
+    }
+}
+
 fn quiesce(router: &mut Router, world: &Rc<RefCell<World>>) -> bool {
     {
         let mut w = world.borrow_mut();
@@ -2978,6 +2987,38 @@ fn quiesce(router: &mut Router, world: &Rc<RefCell<World>>) -> bool {
 impl World {
     /// Deferred retention checks and completeness, against a router snapshot.
     fn check_at_quiescence(&mut self, snap: &hook::VerifSnapshot, complete: bool) {
+        // C13's retention clause seen at the router: every filter log keeps at most
+        // the configured number of segments (the per-filter override where its key
+        // covers the filter), and has discarded something only if it is at that
+        // number. Filters with wildcards of their own are left out (how the option's
+        // key is matched against them is the broker's business).
+        if self.cfg.seg_size == 1024 {
+            for (filter, count) in snap.filter_segments.iter() {
+                if filter.contains('+') || filter.contains('#') || filter.starts_with('$') {
+                    continue;
+                }
+                let max = match custom_segment_of(&self.cfg) {
+                    Some((key, n)) if spec_matches(filter, key) => n,
+                    _ => self.cfg.seg_count,
+                };
+                let head = snap.filters.iter().find(|(f, _, _)| f == filter).map_or(0, |(_, h, _)| *h);
+                if *count > max {
+                    self.viol(
+                        "log_keeps_more_segments_than_configured",
+                        format!("the log of filter {filter} holds {count} segments, configured are {max}"),
+                    );
+                    return;
+                }
+                if head > 0 && *count < max {
+                    self.viol(
+                        "log_discarded_below_configured_segment_count",
+                        format!("the log of filter {filter} has discarded entries (oldest retained offset {head}) while holding {count} of {max} configured segments"),
+                    );
+                    return;
+                }
+                self.rep.probe("segment_count_judged");
+            }
+        }
         let head_of = |filter: &str| -> Option<u64> {
             snap.filters
                 .iter()
@@ -3474,7 +3515,20 @@ fn run_single(
         max_outgoing_packet_count: cfg.max_outgoing,
         max_segment_size: cfg.seg_size,
         max_segment_count: cfg.seg_count,
-        custom_segment: None,
+        // small-retention runs with an even number of topics also carry a per-filter
+        // override (one key, so that the HashMap order of the option cannot matter):
+        // everything under a/ keeps two segments more than the default
+        custom_segment: custom_segment_of(&cfg).map(|(k, n)| {
+            let mut m = std::collections::HashMap::new();
+            m.insert(
+                k.to_string(),
+                rumqttd::SegmentConfig {
+                    max_segment_size: cfg.seg_size,
+                    max_segment_count: n,
+                },
+            );
+            m
+        }),
         initialized_filters: None,
         shared_subscriptions_strategy: match cfg.strategy {
             0 => Strategy::RoundRobin,
